@@ -19,6 +19,74 @@ from lib import h_entity as H
 from lib import simenv
 
 
+# ------------------------------------------------------------------ which source lines do the correspondence cases execute?
+def start_source_coverage():
+    """Statement coverage of simaple/simulate/component/** while the correspondence cases run on the implementation: a line of a
+    reducer / view / entity method that no case executes is a line whose behaviour is NOT tied to the model on this run (a change
+    there can only be caught by the implementation-side search).  Reported in evidence; None when `coverage` is unavailable."""
+    try:
+        import coverage
+        from lib.vf import REPO
+        c = coverage.Coverage(data_file=None, include=[str(REPO / "simaple/simulate/component/*")], config_file=False)
+        c.start()
+        return c
+    except Exception:
+        return None
+
+
+def stop_source_coverage(c):
+    if c is None:
+        return {"available": False}
+    from lib.vf import REPO
+    c.stop()
+    out, tot_s, tot_m = {}, 0, 0
+    try:
+        files = sorted(c.get_data().measured_files())
+        import glob
+        import os
+        every = sorted(glob.glob(str(REPO / "simaple/simulate/component/**/*.py"), recursive=True))
+        for f in every:
+            if os.path.basename(f) == "__init__.py":
+                continue
+            try:
+                _fn, stmts, _excl, missing, _fmt = c.analysis2(f)
+            except Exception:
+                continue
+            # module-level statements (imports, class/def headers, field declarations) run at import time, before tracing started:
+            # only statements inside function bodies count
+            body = _function_body_lines(f)
+            stmts = [l for l in stmts if l in body]
+            missing = [l for l in missing if l in body]
+            if f not in files:
+                missing = stmts
+            if not stmts:
+                continue
+            rel = os.path.relpath(f, str(REPO))
+            out[rel] = {"statements": len(stmts), "executed": len(stmts) - len(missing), "missing_lines": missing[:60]}
+            tot_s += len(stmts)
+            tot_m += len(missing)
+    except Exception as ex:
+        return {"available": False, "error": repr(ex)}
+    return {"available": True, "function_body_statements": tot_s, "executed": tot_s - tot_m,
+            "percent": round(100.0 * (tot_s - tot_m) / tot_s, 1) if tot_s else None, "files": out}
+
+
+def _function_body_lines(path):
+    import ast
+    lines = set()
+    try:
+        tree = ast.parse(open(path).read())
+    except Exception:
+        return lines
+    for node in ast.walk(tree):
+        if isinstance(node, (ast.FunctionDef, ast.AsyncFunctionDef)):
+            for st in node.body:
+                for sub in ast.walk(st):
+                    if hasattr(sub, "lineno"):
+                        lines.add(sub.lineno)
+    return lines
+
+
 # ------------------------------------------------------------------ model correspondence
 def model_correspondence(ctx, n_walks, walk_len, jobs, shard_size=400):
     rng = random.Random(ctx.seed * 31 + 7)
@@ -532,12 +600,14 @@ def run_prop(ctx, props_file, assume, known_match, witness_replay, rule, own_pur
     # ---- correspondence
     quick = not ctx.thorough
     jobs = job_pairs(ctx, 4 if quick else 8)
+    srccov = start_source_coverage()
     diffs, purity, extra, stats, samples = model_correspondence(ctx, 160 if quick else 1600, 10 if quick else 12, jobs)
     for d in diffs[:20]:
         ctx.broken.append("correspondence H-entity: %s (%s.%s)" % (d["what"], d.get("class"), d.get("reducer")))
     for d in extra[:5]:
         ctx.broken.append("correspondence H-entity: %s (%s.%s)" % (d["what"], d.get("class"), d.get("reducer")))
     xdiffs, xstats, xsamples = extension_correspondence(ctx)
+    ctx.cov["source_lines_executed_by_correspondence_cases"] = stop_source_coverage(srccov)
     for d in xdiffs[:20]:
         ctx.broken.append("correspondence H-entity (extension): %s (%s.%s)" % (d["what"], d.get("class"), d.get("reducer")))
     diffs = diffs + xdiffs
